@@ -3,7 +3,8 @@
    Definitions only.  A Go panic is [None].  Transcribed statement by statement from the code
    as it is after the fix: commits (Seek from the end, mmap exact fit, BitmapReader last bit,
    ReadInt24 sign extension, 8-bit reads test len(data) < 1, EOF together with the last bytes is not
-   an error for a satisfied request, mmap n == 0), quirks included. *)
+   an error for a satisfied request, mmap n == 0, (0, nil) reads are retried up to 100 times), quirks
+   included. *)
 From Verif Require Import Common.Base.
 
 (* ---- error kinds (projection of Go's error values) -------------------------------------- *)
@@ -11,11 +12,12 @@ Definition E_NIL : Z := 0.
 Definition E_EOF : Z := 1.       (* io.EOF *)
 Definition E_RANGE : Z := 2.     (* "bytes: invalid range" / "mmap: invalid range" *)
 Definition E_NOSEEK : Z := 3.    (* "reader: does not implement io.Seeker or io.ReaderAt" *)
-Definition E_SHORT : Z := 4.     (* "reader: could not read all bytes" *)
+Definition E_SHORT : Z := 4.     (* "reader: could not read all bytes" (ReaderAt backend) *)
 Definition E_SRC : Z := 5.       (* an error of the underlying io.Reader / Seeker / ReaderAt *)
 Definition E_CLOSED : Z := 6.    (* "mmap: closed" *)
 Definition E_OFFSET : Z := 7.    (* Seek: "invalid offset" *)
 Definition E_WHENCE : Z := 8.    (* Seek: "invalid whence" *)
+Definition E_NOPROGRESS : Z := 9. (* io.ErrNoProgress: 100 consecutive (0, nil) reads *)
 Definition E_FUEL : Z := 99.     (* model only: loop fuel exhausted (proved unreachable) *)
 
 (* ---- what IBinaryReader.Bytes returns --------------------------------------------------- *)
@@ -89,11 +91,16 @@ Definition src_read (rem sched : list Z) (ewl : bool) (fe : Z) (k : Z) : rd :=
       mkRd (firstz m rem) rem' (tl sched) (if (len rem' =? 0) && ewl then fe else E_NIL)
   end.
 
-(* for i := 0; i < int(n); { m, err := r.Read(b[i:]); i += m;
+(* maxConsecutiveEmptyReads *)
+Definition MAX_EMPTY : Z := 100.
+
+(* for i, empty := 0, 0; i < int(n); { m, err := r.Read(b[i:]); i += m;
      if err == io.EOF && i == int(n) {break} else if err != nil {return b[:i], err}
-     else if m == 0 {return b[:i], "could not read all bytes"} }; return b, nil
-   need = n - i, acc = b[:i].  At most n+1 iterations: fuel n+1 is never exhausted. *)
-Fixpoint read_loop (fuel : nat) (rem sched : list Z) (ewl : bool) (fe : Z) (need : Z) (acc : list Z) : rd :=
+     else if 0 < m {empty = 0}
+     else if empty++; maxConsecutiveEmptyReads <= empty {return b[:i], io.ErrNoProgress} }; return b, nil
+   need = n - i, acc = b[:i].  Every iteration either delivers a byte or counts an empty read, so
+   100*(n+1) iterations suffice: the fuel is never exhausted. *)
+Fixpoint read_loop (fuel : nat) (rem sched : list Z) (ewl : bool) (fe : Z) (need empty : Z) (acc : list Z) : rd :=
   if need <=? 0 then mkRd acc rem sched E_NIL else
   match fuel with
   | O => mkRd acc rem sched E_FUEL
@@ -102,11 +109,13 @@ Fixpoint read_loop (fuel : nat) (rem sched : list Z) (ewl : bool) (fe : Z) (need
       let acc' := acc ++ rd_out r in
       if (rd_err r =? E_EOF) && (need - len (rd_out r) =? 0) then mkRd acc' (rd_rem r) (rd_sched r) E_NIL
       else if negb (rd_err r =? 0) then mkRd acc' (rd_rem r) (rd_sched r) (rd_err r)
-      else if len (rd_out r) =? 0 then mkRd acc' (rd_rem r) (rd_sched r) E_SHORT
-      else read_loop f (rd_rem r) (rd_sched r) ewl fe (need - len (rd_out r)) acc'
+      else if 0 <? len (rd_out r) then
+        read_loop f (rd_rem r) (rd_sched r) ewl fe (need - len (rd_out r)) 0 acc'
+      else if MAX_EMPTY <=? empty + 1 then mkRd acc' (rd_rem r) (rd_sched r) E_NOPROGRESS
+      else read_loop f (rd_rem r) (rd_sched r) ewl fe need (empty + 1) acc'
   end.
 
-Definition loop_fuel (n : Z) : nat := S (Z.to_nat n).
+Definition loop_fuel (n : Z) : nat := S (Z.to_nat (100 * n + 100)).
 
 (* ---- binaryReaderReader (binary.go:63-105) ---------------------------------------------- *)
 Record rstate := mkR { r_rem : list Z; r_sched : list Z; r_ewl : bool; r_fe : Z; r_pos : Z; r_size : Z }.
@@ -116,7 +125,7 @@ Definition reader_bytes (s : rstate) (bnil : bool) (n off : Z) : option (rstate 
   else if n =? 0 then Some (s, nil_res E_NIL)
   else if bnil && (n <? 0) then None                      (* make([]byte, n) panics *)
   else
-    let r := read_loop (loop_fuel n) (r_rem s) (r_sched s) (r_ewl s) (r_fe s) n [] in
+    let r := read_loop (loop_fuel n) (r_rem s) (r_sched s) (r_ewl s) (r_fe s) n 0 [] in
     Some (mkR (rd_rem r) (rd_sched r) (r_ewl s) (r_fe s) (r_pos s + len (rd_out r)) (r_size s),
           mkBR (rd_out r) false (rd_err r)).
 
@@ -133,7 +142,7 @@ Definition seeker_bytes (s : kstate) (bnil : bool) (n off : Z) : option (kstate 
   else if bnil && (n <? 0) then None
   else if k_closed s || (off <? 0) then Some (s, nil_res E_SRC)   (* r.r.Seek(off, 0) fails *)
   else
-    let r := read_loop (loop_fuel n) (skipz off (k_data s)) (k_sched s) (k_ewl s) (k_fe s) n [] in
+    let r := read_loop (loop_fuel n) (skipz off (k_data s)) (k_sched s) (k_ewl s) (k_fe s) n 0 [] in
     Some (mkK (k_data s) (rd_sched r) (k_ewl s) (k_fe s) (k_size s) (k_closed s) (k_closer s),
           mkBR (rd_out r) false (rd_err r)).
 
